@@ -229,3 +229,147 @@ Proof.
     rewrite Forall_forall in F1. apply (F1 d). rewrite E. apply in_or_app. right. now left.
   - intros ds1 d ds2 E D. eapply W2; eauto.
 Qed.
+
+(* ------------------------------------------------------------------ the order of the writes of one Set *)
+From Coq Require Import Sorted.
+
+Lemma path_ltb_irrefl : forall a, path_ltb a a = false.
+Proof. induction a as [|x a IH]; cbn; [reflexivity|]. rewrite N.ltb_irrefl. exact IH. Qed.
+
+Lemma path_ltb_trans : forall a b c, path_ltb a b = true -> path_ltb b c = true -> path_ltb a c = true.
+Proof.
+  induction a as [|x a IH]; intros [|y b] [|z c]; cbn; try discriminate; auto.
+  intros H1 H2.
+  destruct (x <? y) eqn:E1.
+  - destruct (y <? z) eqn:E2.
+    + assert (E : (x <? z) = true) by lia. now rewrite E.
+    + destruct (z <? y) eqn:E3; [discriminate|]. assert (E : (x <? z) = true) by lia. now rewrite E.
+  - destruct (y <? x) eqn:E1'; [discriminate|].
+    destruct (y <? z) eqn:E2.
+    + assert (E : (x <? z) = true) by lia. now rewrite E.
+    + destruct (z <? y) eqn:E3; [discriminate|].
+      assert (E : (x <? z) = false) by lia. assert (E' : (z <? x) = false) by lia. rewrite E, E'. eauto.
+Qed.
+
+Lemma path_ltb_asym : forall a b, path_ltb a b = true -> path_ltb b a = false.
+Proof.
+  intros a b H. destruct (path_ltb b a) eqn:E; [|reflexivity].
+  pose proof (path_ltb_trans _ _ _ H E) as X. now rewrite path_ltb_irrefl in X.
+Qed.
+
+Lemma is_prefix_refl : forall p, is_prefix p p = true.
+Proof. induction p as [|x p IH]; cbn; [reflexivity|]. now rewrite N.eqb_refl. Qed.
+
+(* a proper prefix sorts first *)
+Lemma prefix_ltb : forall q p, is_prefix q p = true -> q = p \/ path_ltb q p = true.
+Proof.
+  induction q as [|x q IH]; intros [|y p] H; cbn in *; auto; try discriminate.
+  apply andb_prop in H. destruct H as [E H]. assert (x = y) by lia; subst y.
+  destruct (IH _ H) as [->|L]; [now left|right]. now rewrite N.ltb_irrefl.
+Qed.
+
+Section SortBy.
+Context {A : Type} (f : A -> path).
+Definition notafter (a b : A) : Prop := path_ltb (f b) (f a) = false.   (* b does not sort strictly before a *)
+
+Lemma insert_sorted : forall x l, StronglySorted notafter l -> StronglySorted notafter (insert_by f x l).
+Proof.
+  induction l as [|y r IH]; intros S; cbn.
+  - constructor; constructor.
+  - inversion S as [|? ? Sr Fy]; subst. destruct (path_ltb (f x) (f y)) eqn:E.
+    + constructor; [exact S|]. constructor; [now apply path_ltb_asym|].
+      rewrite Forall_forall in *. intros z Hz. specialize (Fy z Hz). unfold notafter in *.
+      destruct (path_ltb (f z) (f x)) eqn:E2; [|reflexivity].
+      pose proof (path_ltb_trans _ _ _ E2 E) as X. congruence.
+    + constructor; [now apply IH|]. rewrite Forall_forall in *. intros z Hz. apply in_insert_by in Hz.
+      destruct Hz as [->|Hz]; [exact E|now apply Fy].
+Qed.
+
+Lemma sort_by_sorted : forall l, StronglySorted notafter (sort_by f l).
+Proof.
+  intros l. unfold sort_by.
+  assert (G : forall acc, StronglySorted notafter acc ->
+                          StronglySorted notafter (fold_left (fun acc x => insert_by f x acc) l acc)).
+  { induction l as [|x r IH]; intros acc S; cbn [fold_left]; [exact S|]. apply IH. now apply insert_sorted. }
+  apply G. constructor.
+Qed.
+End SortBy.
+
+Lemma ss_split : forall {A : Type} (R : A -> A -> Prop) l1 a l2, StronglySorted R (l1 ++ a :: l2) -> Forall (R a) l2.
+Proof.
+  induction l1 as [|x l1 IH]; intros a l2 S; cbn in S; inversion S; subst; [assumption|eauto].
+Qed.
+
+Lemma ss_map : forall {A B : Type} (RA : A -> A -> Prop) (RB : B -> B -> Prop) (g : A -> B) l,
+  (forall a b, RA a b -> RB (g a) (g b)) -> StronglySorted RA l -> StronglySorted RB (map g l).
+Proof.
+  intros A B RA RB g l H S. induction S as [|a l S IH F]; cbn; constructor; [exact IH|].
+  rewrite Forall_forall in *. intros b Hb. apply in_map_iff in Hb. destruct Hb as (a' & <- & Ha). apply H. now apply F.
+Qed.
+
+Lemma set_writes_sorted : forall rules req v ws, set_writes rules req v = (ROk, ws) ->
+  StronglySorted (notafter (fst : path * tree -> path)) ws.
+Proof.
+  intros rules req v ws H. unfold set_writes in H.
+  destruct (matches writeable rules req) as [|m ms] eqn:EM; [discriminate|]. rewrite <- EM in H.
+  destruct (literal_matches (matches writeable rules req)) as [lms|] eqn:EL; [|discriminate].
+  destruct (overlapping (map snd lms)); [discriminate|].
+  match type of H with (if ?c then _ else _) = _ => destruct c; [discriminate|] end.
+  match type of H with (if ?c then _ else _) = _ => destruct c; [discriminate|] end.
+  injection H as <-. rewrite map_map.
+  apply (ss_map (notafter (fst : lmatch -> path))); [|apply sort_by_sorted].
+  intros a b R. exact R.
+Qed.
+
+(* the sort-order lemma: the writes of one Set are performed outer storage path first - a write never comes after a
+   write to a path strictly below it *)
+Theorem outer_written_before_inner : forall rules req v ws ws1 d ws2 d',
+  set_writes rules req v = (ROk, ws) -> ws = ws1 ++ d :: ws2 -> In d' ws2 ->
+  is_prefix (fst d') (fst d) = true -> fst d' = fst d.
+Proof.
+  intros rules req v ws ws1 d ws2 d' H E I P. pose proof (set_writes_sorted _ _ _ _ H) as S. rewrite E in S.
+  apply ss_split in S. rewrite Forall_forall in S. specialize (S d' I). unfold notafter in S.
+  destruct (prefix_ltb _ _ P) as [Q|L]; [exact Q|congruence].
+Qed.
+
+(* read-after-write at the storage level, nested storage paths included: after all the writes of an accepted Set have
+   been applied (in their order) to any databag, every written storage path that no LATER write of the same Set
+   touches (equal to it or below it) holds the value written to it - in particular an inner path survives the write
+   to the outer path, because the outer one is written first *)
+Theorem storage_read_after_write : forall rules req v ws b,
+  set_writes rules req v = (ROk, ws) -> Forall is_set ws ->
+  exists b', apply_deltas b ws = Some b' /\
+    forall ws1 d ws2, ws = ws1 ++ d :: ws2 ->
+      (forall d', In d' ws2 -> is_prefix (fst d) (fst d') = false) ->
+      bag_get (fst d) b' = BOk (strip (snd d)).
+Proof.
+  intros rules req v ws b H F. destruct (apply_sets ws b F) as (b' & E & _ & Win). exists b'. split; [exact E|].
+  intros ws1 d ws2 Ews NP. apply (Win ws1 d ws2 Ews). intros d' I. unfold diverge. rewrite (NP d' I). cbn.
+  destruct (is_prefix (fst d') (fst d)) eqn:P; [|reflexivity].
+  pose proof (outer_written_before_inner _ _ _ _ _ _ _ _ H Ews I P) as Q.
+  specialize (NP d' I). rewrite Q, is_prefix_refl in NP. discriminate.
+Qed.
+
+(* ------------------------------------------------------------------ read-after-write through the view *)
+Lemma apply_deltas_app : forall l1 l2 b, apply_deltas b (l1 ++ l2) =
+  match apply_deltas b l1 with Some b1 => apply_deltas b1 l2 | None => None end.
+Proof.
+  induction l1 as [|d r IH]; intros l2 b; cbn; [reflexivity|]. destruct (apply_delta b d); [apply IH|reflexivity].
+Qed.
+
+(* a request matched in full by exactly one literal read-write rule (and by no other rule as a prefix): inside a
+   transaction whose pending deltas apply cleanly, Get after an accepted Set of v returns v (nulls stripped) *)
+Theorem view_read_after_write : forall rules req v sp p t b,
+  matches writeable rules req = [(sp, [])] -> matches readable rules req = [(sp, [])] ->
+  lits sp = Some p -> p <> [] -> v <> Null ->
+  apply_deltas (tx_pristine t) (tx_deltas t) = Some b ->
+  set_writes rules req v = (ROk, [(p, v)]) /\
+  view_get rules (tx_get (add_deltas t [(p, v)])) req = VOk (strip v).
+Proof.
+  intros rules req v sp p t b MW MR L NP NV AD. split.
+  - unfold set_writes. rewrite MW. cbn. rewrite L. cbn. reflexivity.
+  - unfold view_get. rewrite MR. cbn. rewrite L. cbn.
+    unfold tx_get, add_deltas. cbn [tx_pristine tx_deltas]. rewrite apply_deltas_app, AD. cbn [apply_deltas].
+    rewrite (apply_set b (p, v)) by (split; assumption). cbn [fst snd].
+    rewrite bag_get_node by exact NP. rewrite bag_set_obj by exact NP. rewrite bnode_tset_same. reflexivity.
+Qed.
